@@ -875,6 +875,7 @@ def register_stop_and_startup(reg):
             return r
 
         rec = PObj("Recorder", tag="recorder")
+        rec.fields["_recording"] = True  # the scenario was started: its recorders began recording (the failed-start case is C14's contract)
         rec.fields["endRecording"] = BuiltinFn("endRecording", lambda canceled=False: log.append(("end recording", canceled, self.fields["_isRunning"])))
         cfg = PObj("RecordConfig", tag="record config")
         cfg.fields["recorder"] = rec
